@@ -87,6 +87,57 @@ pub open spec fn simple_primary(r: (CompiledProg, AstNode<Primary>), t: TokenWit
 
 
 
+
+// ---- format strings ---------------------------------------------------------------------------------------------------------------
+/// the token sequence of a source text (unit tokenizer specifies the tokens themselves; here only: one fixed sequence per text)
+pub uninterp spec fn tokens_of(src: Seq<char>) -> Seq<TokenWithLoc>;
+// S1: the tokenizer the compiler creates for an embedded expression
+#[verifier::external_body] pub struct StringTokenizer<'l> { _p: &'l u8 }
+impl<'l> StringTokenizer<'l> {
+    pub uninterp spec fn t_toks(&self) -> Seq<TokenWithLoc>;
+    pub uninterp spec fn t_pos(&self) -> nat;
+    pub uninterp spec fn t_scanned(&self) -> nat;
+    /// ASSUMED: a fresh tokenizer stands before the first token of its text
+    #[verifier::external_body] pub fn with_input(input: &'l str) -> (r: StringTokenizer<'l>) ensures r.t_toks() == tokens_of(input@), r.t_pos() == 0 { unimplemented!() }
+}
+impl<'l> Tokenizer for StringTokenizer<'l> {
+    open spec fn toks(&self) -> Seq<TokenWithLoc> { self.t_toks() }
+    open spec fn pos(&self) -> nat { self.t_pos() }
+    open spec fn scanned(&self) -> nat { self.t_scanned() }
+    #[verifier::external_body] fn peek(&mut self) -> (r: Result<Option<&TokenWithLoc>, SyntaxError>) { unimplemented!() }
+    #[verifier::external_body] fn next(&mut self) -> (r: Result<Option<TokenWithLoc>, SyntaxError>) { unimplemented!() }
+    #[verifier::external_body] fn location(&self) -> (r: SourceLocation) { unimplemented!() }
+}
+pub uninterp spec fn resolved(code: Seq<PreResolvedCodePoint>) -> Seq<ByteCode>;      // PreResolvedByteCode::resolve
+impl<'a> BindContext<'a> { #[verifier::external_body] pub fn for_compile() -> (r: BindContext<'a>) { unimplemented!() } }
+/// the three code points of one segment: the text (or the unevaluated block of the embedded expression, compiled on its own from label 0),
+/// then `string` and CALL 1 -- every segment is converted with string()
+pub open spec fn seg_ok(c0: PreResolvedCodePoint, c1: PreResolvedCodePoint, c2: PreResolvedCodePoint, seg: FStringSegment) -> bool {
+    &&& (match seg {
+            FStringSegment::Lit(t) => c0 == bc(ByteCode::Push(CelValue::String(t))),
+            FStringSegment::Expr(e) => {
+                let p = sp_expr(tokens_of(e@), 0, 0);
+                p is Some && c0 is Bytecode && c0->Bytecode_0 is Push && c0->Bytecode_0->Push_0 is ByteCode && c0->Bytecode_0->Push_0->ByteCode_0@ == resolved(code_of(p->Some_0.node))
+            },
+        })
+    &&& c1 is Bytecode && c1->Bytecode_0 is Push && c1->Bytecode_0->Push_0 is Ident && c1->Bytecode_0->Push_0->Ident_0@ == "string"@
+    &&& c2 == bc(ByteCode::Call(1))
+}
+pub open spec fn fstr_details(segs: Seq<FStringSegment>, k: int) -> Set<Seq<char>> decreases k {
+    if k <= 0 { Set::empty() } else {
+        fstr_details(segs, k - 1) + (match segs[k - 1] { FStringSegment::Expr(e) => sp_expr(tokens_of(e@), 0, 0)->Some_0.details, FStringSegment::Lit(_) => Set::empty() })
+    }
+}
+impl Clone for FStringSegment { #[verifier::external_body] fn clone(&self) -> (r: Self) ensures r == *self { unimplemented!() } }
+/// R2: `CelCompiler::with_tokenizer(&mut tok)` -- the unsizing `&mut StringTokenizer -> &mut dyn Tokenizer` is outside Verus; with_tokenizer itself is verified
+impl<'l> CelCompiler<'l> {
+    pub closed spec fn c_toks(&self) -> Seq<TokenWithLoc> { self.tokenizer.toks() }
+    pub closed spec fn c_pos(&self) -> nat { self.tokenizer.pos() }
+    pub closed spec fn c_lbl(&self) -> u32 { self.next_label }
+}
+#[verifier::external_body] fn s_compiler_for<'l, 'x>(tok: &'l mut StringTokenizer<'x>) -> (r: CelCompiler<'l>)
+    ensures r.tokenizer.toks() == old(tok).t_toks() && r.tokenizer.pos() == old(tok).t_pos() && r.next_label == 0 { unimplemented!() }
+#[verifier::external_body] pub fn s_collect_points(v: Vec<PreResolvedCodePoint>) -> (r: PreResolvedByteCode) ensures r@ == v@ { unimplemented!() }
 // ---- map literals -----------------------------------------------------------------------------------------------------------------
 pub struct OL { pub pairs: Seq<(P<Expr>, P<Expr>)>, pub end: nat, pub lbl: u32 }      // (key, value) in source order
 /// Expr `:` Expr (`,` Expr `:` Expr)* [`,`]  up to (not including) the closing brace; an empty map is allowed
@@ -274,6 +325,17 @@ def primary_contract(stub=False):
                     }})
             }})
         }})""", ('C06', 'C09', 'C17', 'C18', 'C02', 'C10')))
+    ens.append(('format_string_converts_every_segment_with_string_and_joins_them', f"""r is Ok && {T0}.token is FStringLit ==> ({{
+            let segs = {T0}.token->FStringLit_0@;
+            let n = segs.len() as int;
+            &&& {ONE}
+            &&& a_loc(r->Ok_0.1) == {T0}.loc && a_node(r->Ok_0.1) is Literal && a_node(r->Ok_0.1)->Literal_0 is FStringList
+            &&& r->Ok_0.0.details@ == fstr_details(segs, n)
+            &&& node_view(r->Ok_0.0.inner) is Code && ({{ let code = node_view(r->Ok_0.0.inner)->Code_0;
+                &&& code.len() == 3 * n + 1 && code[3 * n] == bc(ByteCode::FmtString(n as u32))
+                &&& forall|i: int| 0 <= i < n ==> seg_ok(#[trigger] code[3 * i], code[3 * i + 1], code[3 * i + 2], segs[i])
+            }})
+        }})""", ('C14', 'C17', 'C10', 'C18')))
     ens.append(('map_literal_holds_its_entries_in_order', f"""r is Ok && {T0}.token is LBrace ==> ({{
             let toks = old(self).tokenizer.toks();
             let l = sp_obj_inits(toks, old(self).tokenizer.pos() + 1, old(self).next_label);
@@ -291,10 +353,21 @@ def primary_contract(stub=False):
         return A(stub=True, ret='r', requires=[CURSOR], ensures=ens)
     drop = lambda what: ('{ unverified_primary_arm() }', f'{what}: iterator unzip / step_by / a nested compiler, outside what Verus accepts; NOT VERIFIED')
     return A(ret='r', attrs=['#[verifier::exec_allows_no_decreases_clause]'], requires=[CURSOR], ensures=ens,
-             arm_replace={                          'Some(TokenWithLoc { token: Token::FStringLit(segments), loc, })': drop('f-string lowering')},
+             arm_replace={},
              closures={0: dict(types=['Vec<CelValue>'], ret='res: CelValue', ensures=[('the_list_of_the_values', 'res == list_val(c@)', ('C06', 'C09'))])},
              closure_drop={1: ('s_map_resolver', 'the map-literal resolver closure (HashMap insertion over step_by(2)) is outside what Verus accepts')},
-             loops={0: dict(header='while let Some(val_ast) = children_ast_iter.next()', invariant=[
+             loops={1: dict(header='for segment in segments.iter()', ghost='it', invariant=[
+                 ('segments_so_far', '''self.tokenizer.toks() == old(self).tokenizer.toks() && self.tokenizer.pos() == old(self).tokenizer.pos() + 1 && self.tokenizer.pos() <= self.tokenizer.toks().len() && self.next_label == old(self).next_label && self.bindings == old(self).bindings
+                    && bytecode@.len() == 3 * it.index@ && details@ == fstr_details(segments@, it.index@ as int)
+                    && (forall|i: int| 0 <= i < it.index@ ==> seg_ok(#[trigger] bytecode@[3 * i], bytecode@[3 * i + 1], bytecode@[3 * i + 2], segments@[i]))''', ('C14', 'C17', 'C10'))],
+                 pre='let ghost b0 = bytecode@; let ghost k0 = it.index@ as int;',
+                 post='''proof {
+    assert(bytecode@.len() == 3 * (k0 + 1));
+    assert forall|i: int| 0 <= i < k0 + 1 implies seg_ok(#[trigger] bytecode@[3 * i], bytecode@[3 * i + 1], bytecode@[3 * i + 2], segments@[i]) by {
+        if i < k0 { assert(bytecode@[3 * i] == b0[3 * i] && bytecode@[3 * i + 1] == b0[3 * i + 1] && bytecode@[3 * i + 2] == b0[3 * i + 2]); }
+    }
+}'''),
+                    0: dict(header='while let Some(val_ast) = children_ast_iter.next()', invariant=[
                  ('entries_paired_key_then_value', '''init_asts@.len() <= l1.pairs.len() && init_asts@ =~= pair_asts(l1.pairs).take(init_asts@.len() as int)
                     && children_ast_iter.rest() =~= items_asts(flat_items(l1.pairs)).skip(2 * init_asts@.len() as int)''', ('C02', 'C18'))],
                  ensures=[('all_entries_consumed', 'children_ast_iter.rest().len() == 0', ('C02',))],
@@ -313,6 +386,8 @@ proof {
 }''')},
              rewrites=[('Some(&TokenWithLoc { token: Token::RBrace, loc: rbrace_loc, })', 'Some(TokenWithLoc { token: Token::RBrace, loc: rbrace_loc, })', 'R5: `&` pattern -> default binding mode (the span is copied out before the tokenizer is used again)'),
                        ('self.tokenizer.next()?; loc.surrounding(rbrace_loc)', 'let rbrace_loc: SourceRange = *rbrace_loc; self.tokenizer.next()?; loc.surrounding(rbrace_loc)', 'R5: the copy the `&` pattern made'),
+                       ('CelCompiler::with_tokenizer(&mut tok)', 's_compiler_for(&mut tok)', 'R2: unsizing &mut StringTokenizer -> &mut dyn Tokenizer is outside Verus: trampoline with the contract of with_tokenizer'),
+                       ('bytecode.into_iter().collect()', 's_collect_points(bytecode)', 'R2m: Vec::into_iter().collect() into pre-resolved code -> trampoline (assumed: the same points in order)'),
                        ('obj_init.into_iter().unzip()', 's_unzip(obj_init)', 'R2m: Vec::into_iter().unzip() -> trampoline'),
                        ('children_ast.into_iter()', 's_ast_iter(children_ast)', 'R2m: a vec::IntoIter driven by hand -> stand-in iterator (assumed: yields the elements in order)'),
                        ('expr_node_list.into_iter().unzip()', 's_unzip(expr_node_list)', 'R2m: Vec::into_iter().unzip() -> trampoline (assumed: the two component vectors, in order)')],
@@ -434,6 +509,7 @@ def build():
         'new': A(stub=True, ret='r', ensures=[('empty', 'r@.len() == 0')]),
         'extend': A(stub=True, ensures=[('appends_in_order', 'final(self)@ == old(self)@ + points_of(byte_codes)')]),
         'into_iter': A(external_body=True, ret='r', ensures=[('yields_the_points_in_order', 'points_of(r) == self@')]),
+        'resolve': A(stub=True, ret='r', ensures=[('the_resolved_block', 'r@ == resolved(self@)'), ('ASSUMED_labels_of_compiler_output_are_unique_and_defined', 'true')]),
     }, others='stub')
     U.extract(C.CE, 'impl CelError', fns={}, others='stub')
     U.extract(C.CV, 'impl CelValue', fns={
@@ -462,6 +538,7 @@ def build():
         'parse_primary': primary_contract(),
         'parse_expression_list': expr_list_contract(),
         'parse_obj_inits': obj_inits_contract(),
+        'with_tokenizer': A(ret='r', ensures=[('fresh_compiler_on_that_tokenizer', 'r.c_toks() == old(tokenizer).toks() && r.c_pos() == old(tokenizer).pos() && r.c_lbl() == 0')], props=('C10', 'C01')),
     })
     U.raw(C.FOOTER, 'footer')
     return U
